@@ -261,6 +261,22 @@ class World:
 
 
 _LAST: Optional[World] = None
+_N_FRESH = 0
+_GC_EVERY = 64
+
+
+def _memory_hygiene():
+    """Worlds are cyclic garbage (protocol <-> transport <-> world, exception <-> frame) of ~10^4 objects each.  CPython
+    postpones full collections until the young garbage exceeds 25% of all long-lived objects, and the imported library
+    alone is ~2*10^5 objects -- pool workers were observed at 3 GB each.  Freeze what exists at the first world of a process
+    (it is immortal anyway) and run a full collection every _GC_EVERY worlds."""
+    global _N_FRESH
+    if _N_FRESH == 0:
+        gc.collect()
+        gc.freeze()
+    _N_FRESH += 1
+    if _N_FRESH % _GC_EVERY == 0:
+        gc.collect()
 
 
 def reset_addon_manager():
@@ -295,6 +311,7 @@ def fresh(n_sessions: int = 2, addons: Optional[List[Any]] = None, neighbour: bo
     if _LAST is not None:
         _LAST.close()
         _LAST = None
+    _memory_hygiene()
     _uuid.uuid4 = _counter_uuid4()
     reset_addon_manager()
     w = World()
